@@ -127,6 +127,11 @@ func TestVerifDriver(t *testing.T) {
 						o.Got = append(o.Got, verifTokens(l))
 					}
 				}
+				if err == ErrPasteIndicator {
+					// "in addition to valid line data": the line was pasted
+					// between paste brackets, that is all it says
+					err = nil
+				}
 				if err != nil {
 					if err != io.EOF {
 						o.Err = err.Error()
